@@ -1,19 +1,27 @@
 //! C16 — ETH airdrop: only the key holder claims, bound to one wallet, within limits.
 //!
 //! World-level correspondence: the real `sg-eth-airdrop` (instantiate → reply → real `whitelist-immutable`),
-//! a real vending minter + sg721 (created through the real vending factory with the repo's own mock parameters) whose
-//! config points to a real `sg-whitelist`, all under cw-multi-test; against `LP.Airdrop` (Lean).
+//! a real vending minter + sg721 created through the real vending factory (`lp_harness::minters::World`) whose config
+//! points to one of up to two real `sg-whitelist`s (the minter admin can swap them), all under cw-multi-test; against
+//! `LP.Airdrop` (Lean). All messages are raw JSON (`serde_json::json!`).
 //! Function-level correspondence: `ethereum_verify::{verify_ethereum_text, decode_address, get_recovery_param}`,
 //! `str::replace`, `str::contains`, `hex::decode`, Keccak-256.
 //!
 //! Signatures are produced with `k256` + `sha3`. The per-claim witness handed to the model (digest, recovered
-//! public key, verify result) is computed by an INDEPENDENT route: hand-written secp256k1 public-key recovery
-//! and verification on `k256`'s group arithmetic (not `deps.api`, not `recover_from_prehash`), own hex decoder.
+//! public key, verify result) is computed by independent PROTOCOL code: hand-written secp256k1 public-key recovery
+//! and verification on `k256`'s group arithmetic (not `deps.api`, not `recover_from_prehash`), own hex decoder. (The curve
+//! library underneath is the same one cosmwasm-crypto uses: a bug in its field arithmetic would be invisible.)
+//!
+//! Monitors judge from what the harness itself did (the list, limit, amount and template it instantiated with, the
+//! signatures it made, its own count of successful claims per string and per decoded 20-byte address, the whitelist it
+//! attached) and from complete before/after snapshots (whole bank table, all claim counters through the crate's typed
+//! `state::ADDRS_TO_MINT_COUNT`, all members of both collection whitelists): exact deltas for a successful claim,
+//! no delta at all for a failed claim and for any other message (`exec_raw`: hypothetical and schema-enumerated
+//! execute variants, sudo, migrate — on the airdrop contract and on its whitelist-immutable).
 use std::collections::{BTreeMap, BTreeSet};
 
 use cosmwasm_std::testing::mock_dependencies;
-use cosmwasm_std::{coin, coins, Addr, Coin, Timestamp};
-use cw_multi_test::{BankSudo, Executor, SudoMsg};
+use cosmwasm_std::{Addr, Order};
 use k256::ecdsa::SigningKey;
 use k256::elliptic_curve::ops::Reduce;
 use k256::elliptic_curve::point::{AffineCoordinates, DecompressPoint};
@@ -21,16 +29,28 @@ use k256::elliptic_curve::sec1::ToEncodedPoint;
 use k256::elliptic_curve::subtle::Choice;
 use k256::elliptic_curve::PrimeField;
 use k256::{AffinePoint, FieldBytes, ProjectivePoint, Scalar, U256};
-use lp_harness::boxes::{self, App};
+use lp_harness::minters::{self, jcoin, jtime, FactoryKind, MinterKind, WlKind};
+use lp_harness::world::addr;
 use lp_harness::*;
+use serde_json::{json, Map, Value};
 use sha3::{Digest, Keccak256};
 
 const NATIVE: &str = "ustars";
 const GENESIS: u64 = sg_utils::GENESIS_MINT_START_TIME;
 const FEE: u128 = sg_eth_airdrop::contract::INSTANTIATION_FEE;
-const MIN_AIRDROP: u128 = 10_000_000;
-const MAX_AIRDROP: u128 = 100_000_000_000_000;
+/// admin of the collection whitelists
 const CREATOR: &str = "creator";
+/// creator / admin of the minter (`minters::World::default_create`)
+const MINTER_ADMIN: u64 = 10;
+const INST_SENDER: &str = "acct00900";
+const NOW0: u64 = GENESIS + 1_000;
+const HOUR: u64 = 3_600_000_000_000;
+/// the collection whitelists start one hour and end two hours after the world's first block; the minter starts after a day
+const WL_START: u64 = NOW0 + HOUR;
+const WL_END: u64 = WL_START + HOUR;
+const MINTER_START: u64 = NOW0 + 24 * HOUR;
+/// never on any list
+const PROBE: &str = "0x1212121212121212121212121212121212121212";
 
 // ------------------------------------------------------------------------------------------------ byte-string tokens
 
@@ -226,134 +246,186 @@ fn well_formed(sig_str: &str, eth_str: &str) -> bool {
 
 // ------------------------------------------------------------------------------------------------ the world
 
-struct World {
-    app: App,
-    minter: Addr,
-    cwl: Option<Addr>,
-    air_code: u64,
-    imm_code: u64,
-    airdrop: Option<Addr>,
-    // harness-side bookkeeping for the monitors (what was configured, not what the contract says)
-    template: String,
-    listed: BTreeSet<String>,
-    limit: u64,
-    amount: u128,
-    succ: BTreeMap<String, u64>,
-    total_succ: u128,
-    expected_self_balance: u128,
+#[derive(serde::Serialize)]
+struct InstJson {
+    admin: String,
+    claim_msg_plaintext: String,
+    /// serde-json-wasm carries u128 as a decimal string
+    airdrop_amount: String,
+    addresses: Vec<String>,
+    whitelist_code_id: u64,
+    minter_address: String,
+    per_address_limit: u64,
 }
 
-#[derive(Clone, Debug, Default, PartialEq)]
+struct World {
+    mw: minters::World,
+    minter: String,
+    /// collection whitelists, id = index + 1
+    wls: Vec<String>,
+    airdrop: Option<String>,
+    // ---- harness-side bookkeeping for the monitors (what the harness configured and did, not what the contracts say)
+    /// id of the whitelist the harness attached to the minter with a successful SetWhitelist (0 = none)
+    attached: usize,
+    template: String,
+    listed: BTreeSet<String>,
+    probes: Vec<String>,
+    limit: u64,
+    amount: u128,
+    /// successful claims per address STRING and per decoded 20-byte address
+    succ: BTreeMap<String, u64>,
+    succ_addr: BTreeMap<Vec<u8>, u64>,
+    total_succ: u128,
+    expected_self_balance: u128,
+    /// header `strict=1`: fire on the literal per-ADDRESS clause even when the list names the address under two spellings
+    strict: bool,
+}
+
+/// everything a claim or a foreign message could touch
+#[derive(Clone, Debug, PartialEq)]
 struct Snap {
-    b: u128,
-    s: u128,
-    c: u64,
-    m: bool,
-    n: u64,
+    bank: BTreeMap<(String, String), u128>,
+    counters: BTreeMap<String, u32>,
+    members: Vec<BTreeSet<String>>,
+}
+/// the airdrop's list as seen through the queries
+#[derive(Clone, Debug, PartialEq)]
+struct ListSnap {
+    listed_eligible: u64,
+    probes_eligible: u64,
+    count: u64,
+    limit: u64,
 }
 
 impl World {
     fn new(header: &str) -> World {
-        // the repo's own wiring (test-suite `configure_mock_minter`), with the REAL minter / factory / sg721 code
-        use test_suite::common_setup::setup_minter::vending_minter::mock_params::{mock_create_minter, mock_params};
-        let mut app = boxes::custom_mock_app();
-        let creator = Addr::unchecked(CREATOR);
-        app.sudo(SudoMsg::Bank(BankSudo::Mint { to_address: CREATOR.into(), amount: coins(5_000_000_000 + 1_000_000_000, NATIVE) })).unwrap();
-        let minter_code = app.store_code(boxes::vending_minter());
-        let factory_code = app.store_code(boxes::vending_factory());
-        let sg721_code = app.store_code(boxes::sg721_base());
-        let mut params = mock_params(None);
-        params.code_id = minter_code;
-        params.allowed_sg721_code_ids = vec![sg721_code];
-        let creation_fee = params.creation_fee.clone();
-        let factory = app
-            .instantiate_contract(factory_code, creator.clone(), &vending_factory::msg::InstantiateMsg { params }, &[], "factory", None)
-            .expect("factory");
-        let mut cp = sg2::tests::mock_collection_params_1(Some(Timestamp::from_nanos(GENESIS)));
-        cp.code_id = sg721_code;
-        let msg = sg2::msg::Sg2ExecuteMsg::CreateMinter(mock_create_minter(None, cp, None));
-        app.execute_contract(creator.clone(), factory, &msg, &[creation_fee]).expect("create minter");
-        let minter = Addr::unchecked("contract1");
-        let _: vending_minter::msg::ConfigResponse =
-            app.wrap().query_wasm_smart(minter.clone(), &vending_minter::msg::QueryMsg::Config {}).expect("contract1 is the vending minter");
+        let now = kv_u64(header, "now").unwrap_or(NOW0);
+        let mut mw = minters::World::new(now);
+        let params = mw.default_params(MinterKind::Vending);
+        let factory = mw.new_factory(FactoryKind::Vending, &params).expect("vending factory");
+        let mut ca = mw.default_create(MinterKind::Vending, &params);
+        ca.creator = MINTER_ADMIN;
+        ca.start_time = MINTER_START;
+        mw.fund(&addr(MINTER_ADMIN), params.creation_fee.0, params.creation_fee.1);
+        let (minter, _collection) = mw.create_minter(&factory, MinterKind::Vending, &ca).expect("vending minter through the factory");
         let wl = kv_bool(header, "wl").unwrap_or(false);
-        let mut cwl = None;
-        if wl {
-            let limit = kv_u64(header, "wlimit").unwrap_or(10) as u32;
-            let admin = kv_s(header, "admin").unwrap_or_else(|| CREATOR.to_string());
-            let code = app.store_code(boxes::whitelist());
-            let fee = ((limit as u128 + 999) / 1000) * sg_whitelist::contract::PRICE_PER_1000_MEMBERS;
-            let msg = sg_whitelist::msg::InstantiateMsg {
-                members: vec![],
-                start_time: Timestamp::from_nanos(GENESIS + 100),
-                end_time: Timestamp::from_nanos(GENESIS + 10_000_000),
-                mint_price: coin(66_000_000, NATIVE),
-                per_address_limit: 1,
-                member_limit: limit,
-                admins: vec![admin],
-                admins_mutable: true,
-            };
-            let a = app.instantiate_contract(code, creator.clone(), &msg, &coins(fee, NATIVE), "whitelist", None).expect("collection whitelist");
-            app.execute_contract(creator.clone(), minter.clone(), &vending_minter::msg::ExecuteMsg::SetWhitelist { whitelist: a.to_string() }, &[])
-                .expect("set whitelist");
-            cwl = Some(a);
+        let nwl = kv_u64(header, "nwl").unwrap_or(wl as u64);
+        let admin = kv_s(header, "admin").unwrap_or_else(|| CREATOR.to_string());
+        let start = kv_u64(header, "wlstart").unwrap_or(WL_START);
+        let mut wls = vec![];
+        for i in 0..nwl {
+            let limit = if i == 0 { kv_u64(header, "wlimit").unwrap_or(10) } else { kv_u64(header, "wlimit2").or(kv_u64(header, "wlimit")).unwrap_or(10) } as u32;
+            let fee = minters::World::wl_fee(WlKind::Plain, limit);
+            mw.fund(&admin, 0, fee);
+            let msg = json!({"members": [], "start_time": jtime(start), "end_time": jtime(start + HOUR), "mint_price": jcoin((0, 66_000_000)),
+                "per_address_limit": 1, "member_limit": limit, "admins": [admin], "admins_mutable": true});
+            let code = mw.wl_code(WlKind::Plain);
+            wls.push(mw.instantiate(code, &admin, &msg, &[(0, fee)], None).expect("collection whitelist"));
         }
-        let air_code = app.store_code(boxes::eth_airdrop());
-        let imm_code = app.store_code(boxes::whitelist_immutable());
+        let mut attached = 0;
+        if wl && nwl >= 1 {
+            mw.exec(&addr(MINTER_ADMIN), &minter, &json!({"set_whitelist": {"whitelist": wls[0]}}), &[]).expect("set whitelist");
+            attached = 1;
+        }
         World {
-            app,
+            mw,
             minter,
-            cwl,
-            air_code,
-            imm_code,
+            wls,
             airdrop: None,
+            attached,
             template: String::new(),
             listed: BTreeSet::new(),
+            probes: vec![PROBE.to_string()],
             limit: 0,
             amount: 0,
             succ: BTreeMap::new(),
+            succ_addr: BTreeMap::new(),
             total_succ: 0,
             expected_self_balance: 0,
+            strict: kv_bool(header, "strict").unwrap_or(false),
         }
     }
     fn bal(&self, who: &str) -> u128 {
-        self.app.wrap().query_balance(who, NATIVE).map(|c| c.amount.u128()).unwrap_or(0)
+        self.mw.app.wrap().query_balance(who, NATIVE).map(|c| c.amount.u128()).unwrap_or(0)
     }
+    /// the claim counter, through the crate's own typed map (follows a rename of the storage key)
     fn count(&self, eth: &str) -> u64 {
         let Some(a) = &self.airdrop else { return 0 };
-        // cw-storage-plus Map "amc" with a &str key: len-prefixed namespace + raw key
-        let mut key = vec![0u8, 3];
-        key.extend_from_slice(b"amc");
-        key.extend_from_slice(eth.as_bytes());
-        match self.app.wrap().query_wasm_raw(a, key) {
-            Ok(Some(v)) => String::from_utf8_lossy(&v).parse().unwrap_or(u64::MAX),
-            _ => 0,
+        let st = self.mw.app.contract_storage(&Addr::unchecked(a));
+        sg_eth_airdrop::state::ADDRS_TO_MINT_COUNT.may_load(&*st, eth).ok().flatten().unwrap_or(0) as u64
+    }
+    fn counters(&self) -> BTreeMap<String, u32> {
+        let Some(a) = &self.airdrop else { return BTreeMap::new() };
+        let st = self.mw.app.contract_storage(&Addr::unchecked(a));
+        sg_eth_airdrop::state::ADDRS_TO_MINT_COUNT.range(&*st, None, None, Order::Ascending).filter_map(|r| r.ok()).collect()
+    }
+    /// the whitelist-immutable the reply registered (typed config of the airdrop contract)
+    fn imm(&self) -> Option<String> {
+        let a = self.airdrop.as_ref()?;
+        let st = self.mw.app.contract_storage(&Addr::unchecked(a));
+        sg_eth_airdrop::state::CONFIG.may_load(&*st).ok().flatten()?.whitelist_address
+    }
+    fn members_of(&self, wl: &str) -> BTreeSet<String> {
+        let st = self.mw.app.contract_storage(&Addr::unchecked(wl));
+        sg_whitelist::state::WHITELIST.keys(&*st, None, None, Order::Ascending).filter_map(|r| r.ok()).map(|a| a.to_string()).collect()
+    }
+    /// the whitelist the MINTER says it uses (what the airdrop contract will address)
+    fn minter_wl(&self) -> Option<String> {
+        self.mw.query(&self.minter, &json!({"config": {}})).ok()?["whitelist"].as_str().map(|s| s.to_string())
+    }
+    fn minter_wl_id(&self) -> usize {
+        match self.minter_wl() {
+            None => 0,
+            Some(a) => self.wls.iter().position(|w| *w == a).map(|i| i + 1).unwrap_or(99),
+        }
+    }
+    fn attached_addr(&self) -> Option<String> {
+        if self.attached == 0 {
+            None
+        } else {
+            self.wls.get(self.attached - 1).cloned()
         }
     }
     fn has_member(&self, who: &str) -> bool {
-        let Some(w) = &self.cwl else { return false };
-        self.app
-            .wrap()
-            .query_wasm_smart::<sg_whitelist::msg::HasMemberResponse>(w, &sg_whitelist::msg::QueryMsg::HasMember { member: who.to_string() })
-            .map(|r| r.has_member)
-            .unwrap_or(false)
+        let Some(w) = self.minter_wl() else { return false };
+        self.mw.query(&w, &json!({"has_member": {"member": who}})).ok().and_then(|v| v["has_member"].as_bool()).unwrap_or(false)
     }
     fn num_members(&self) -> u64 {
-        let Some(w) = &self.cwl else { return 0 };
-        self.app
-            .wrap()
-            .query_wasm_smart::<sg_whitelist::msg::ConfigResponse>(w, &sg_whitelist::msg::QueryMsg::Config {})
-            .map(|r| r.num_members as u64)
-            .unwrap_or(u64::MAX)
+        let Some(w) = self.minter_wl() else { return 0 };
+        self.mw.query(&w, &json!({"config": {}})).ok().and_then(|v| v["num_members"].as_u64()).unwrap_or(u64::MAX)
     }
     fn eligible(&self, eth: &str) -> Option<bool> {
         let a = self.airdrop.as_ref()?;
-        self.app.wrap().query_wasm_smart::<bool>(a, &sg_eth_airdrop::msg::QueryMsg::AirdropEligible { eth_address: eth.to_string() }).ok()
+        self.mw.query(a, &json!({"airdrop_eligible": {"eth_address": eth}})).ok()?.as_bool()
     }
-    fn snap(&self, sender: &str, eth: &str) -> Snap {
-        let me = self.airdrop.as_ref().map(|a| a.to_string()).unwrap_or_default();
-        Snap { b: self.bal(&me), s: self.bal(sender), c: self.count(eth), m: self.has_member(sender), n: self.num_members() }
+    fn snap(&self) -> Snap {
+        Snap { bank: self.mw.all_balances(), counters: self.counters(), members: self.wls.iter().map(|w| self.members_of(w)).collect() }
     }
+    fn list_snap(&self) -> ListSnap {
+        let imm = self.imm().unwrap_or_default();
+        ListSnap {
+            listed_eligible: self.listed.iter().filter(|e| self.eligible(e) == Some(true)).count() as u64,
+            probes_eligible: self.probes.iter().filter(|e| self.eligible(e) == Some(true)).count() as u64,
+            count: self.mw.query(&imm, &json!({"address_count": {}})).ok().and_then(|v| v.as_u64()).unwrap_or(u64::MAX),
+            limit: self.mw.query(&imm, &json!({"per_address_limit": {}})).ok().and_then(|v| v.as_u64()).unwrap_or(u64::MAX),
+        }
+    }
+    /// listed strings that spell the 20-byte address `a`
+    fn spellings(&self, a: &[u8]) -> u64 {
+        self.listed.iter().filter(|l| decode_eth_manual(l).as_deref() == Some(a)).count() as u64
+    }
+}
+
+/// per-account change of the bank table between two snapshots (all denoms)
+fn bank_delta(before: &Snap, after: &Snap) -> BTreeMap<(String, String), i128> {
+    let mut d = BTreeMap::new();
+    for k in before.bank.keys().chain(after.bank.keys()) {
+        let x = *after.bank.get(k).unwrap_or(&0) as i128 - *before.bank.get(k).unwrap_or(&0) as i128;
+        if x != 0 {
+            d.insert(k.clone(), x);
+        }
+    }
+    d
 }
 
 struct S {
@@ -387,17 +459,15 @@ impl S {
                 let to = kv_s(line, "to").ok_or("to")?;
                 let amt = kv_u128(line, "amt").ok_or("amt")?;
                 let w = self.world();
-                if amt > 0 {
-                    w.app.sudo(SudoMsg::Bank(BankSudo::Mint { to_address: to.clone(), amount: coins(amt, NATIVE) })).map_err(|e| e.to_string())?;
-                }
-                if w.airdrop.as_ref().map(|a| a.as_str() == to).unwrap_or(false) {
+                w.mw.fund(&to, 0, amt);
+                if w.airdrop.as_deref() == Some(to.as_str()) {
                     w.expected_self_balance += amt;
                 }
                 (line.to_string(), format!("ok s={}", w.bal(&to)))
             }
             "inst" => {
                 let sender = kv_s(line, "sender").ok_or("sender")?;
-                let funds: Vec<Coin> = kv_pairs(line, "funds").ok_or("funds")?.iter().map(|(d, a)| coin(*a, lp_harness::world::denom(*d as u64))).collect();
+                let funds: Vec<(u64, u128)> = kv_pairs(line, "funds").ok_or("funds")?.iter().map(|(d, a)| (*d as u64, *a)).collect();
                 let amount = kv_u128(line, "amount").ok_or("amount")?;
                 let limit = kv_u64(line, "limit").ok_or("limit")?;
                 let tpl = kv_s(line, "tpl").ok_or("tpl")?;
@@ -406,33 +476,50 @@ impl S {
                 if w.airdrop.is_some() {
                     return Err("second inst".into());
                 }
-                let msg = sg_eth_airdrop::msg::InstantiateMsg {
-                    admin: Addr::unchecked(&sender),
+                let msg = serde_json::to_value(InstJson {
+                    admin: sender.clone(),
                     claim_msg_plaintext: tpl.clone(),
-                    airdrop_amount: amount,
+                    airdrop_amount: amount.to_string(),
                     addresses: addrs.clone(),
-                    whitelist_code_id: w.imm_code,
+                    whitelist_code_id: w.mw.wl_code(WlKind::Immutable),
                     minter_address: w.minter.clone(),
-                    per_address_limit: limit as u32,
-                };
-                let code = w.air_code;
-                let r = w.app.instantiate_contract(code, Addr::unchecked(&sender), &msg, &funds, "sg-eth-airdrop", None);
-                match r {
+                    per_address_limit: limit,
+                })
+                .map_err(|e| e.to_string())?;
+                let code = w.mw.codes.eth_airdrop;
+                match w.mw.instantiate(code, &sender, &msg, &funds, None) {
                     Ok(a) => {
                         w.airdrop = Some(a.clone());
                         w.template = tpl;
                         w.listed = addrs.into_iter().collect();
+                        // never-listed strings: a fixed one, and the other casings of the listed ones
+                        let mut probes = vec![PROBE.to_string()];
+                        for l in &w.listed {
+                            if l.len() > 2 {
+                                for alt in [format!("{}{}", &l[..2], l[2..].to_lowercase()), format!("{}{}", &l[..2], l[2..].to_uppercase())] {
+                                    if !w.listed.contains(&alt) && !probes.contains(&alt) && probes.len() < 6 {
+                                        probes.push(alt);
+                                    }
+                                }
+                            }
+                        }
+                        w.probes = probes;
                         w.limit = limit;
                         w.amount = amount;
-                        let b = w.bal(a.as_str());
+                        let b = w.bal(&a);
                         w.expected_self_balance = b;
-                        let paid: u128 = funds.iter().filter(|c| c.denom == NATIVE).map(|c| c.amount.u128()).sum();
+                        let paid: u128 = funds.iter().filter(|c| c.0 == 0).map(|c| c.1).sum();
                         if b != paid - FEE {
                             finding = bad("fee", format!("contract holds {b} after instantiate, expected funds {paid} − fee {FEE}"));
                         }
-                        (format!("{line} self={}", hxs(a.as_str())), format!("ok b={} s={}", b, w.bal(&sender)))
+                        (format!("{line} self={}", hxs(&a)), format!("ok b={} ## s={}", b, w.bal(&sender)))
                     }
-                    Err(_) => (format!("{line} self=-"), format!("err s={}", w.bal(&sender))),
+                    Err(e) => {
+                        if std::env::var("C16_DEBUG").is_ok() {
+                            eprintln!("inst failed: {}", e.replace('\n', " / "));
+                        }
+                        (format!("{line} self=-"), format!("err ## s={}", w.bal(&sender)))
+                    }
                 }
             }
             "claim" => {
@@ -446,18 +533,49 @@ impl S {
                 let text = w.template.replace("{wallet}", &sender);
                 let sig_bytes = unhex(sig.as_bytes());
                 let wit = witness_for(&text, sig_bytes.as_deref());
-                let before = w.snap(&sender, &eth);
-                let msg = sg_eth_airdrop::msg::ExecuteMsg::ClaimAirdrop { eth_address: eth.clone(), eth_sig: sig.clone() };
-                let r = w.app.execute_contract(Addr::unchecked(&sender), air.clone(), &msg, &[]);
+                let before = w.snap();
+                let r = w.mw.exec(&sender, &air, &json!({"claim_airdrop": {"eth_address": eth, "eth_sig": sig}}), &[]);
                 let ok = r.is_ok();
-                let after = w.snap(&sender, &eth);
-                // ---- monitors: the property, evaluated on the implementation's own observations
+                let after = w.snap();
+                let delta = bank_delta(&before, &after);
+                let nat = |who: &str| (who.to_string(), NATIVE.to_string());
+                // ---- monitors: the property, from the harness's own bookkeeping and complete before/after snapshots
                 if ok {
                     *w.succ.entry(eth.clone()).or_insert(0) += 1;
                     w.total_succ += 1;
-                    if sender != air.as_str() {
+                    let dec = decode_eth_manual(&eth);
+                    if let Some(a) = &dec {
+                        *w.succ_addr.entry(a.clone()).or_insert(0) += 1;
+                    }
+                    if sender != air {
                         w.expected_self_balance -= w.amount.min(w.expected_self_balance);
                     }
+                    let per_addr = dec.as_ref().map(|a| w.succ_addr[a]).unwrap_or(0);
+                    let spell = dec.as_ref().map(|a| w.spellings(a)).unwrap_or(0);
+                    let mut want = BTreeMap::new();
+                    if sender != air {
+                        want.insert(nat(&air), -(w.amount as i128));
+                        want.insert(nat(&sender), w.amount as i128);
+                    }
+                    let att = w.attached;
+                    let members_ok = att >= 1
+                        && (0..w.wls.len()).all(|i| {
+                            if i + 1 == att {
+                                let mut m = before.members[i].clone();
+                                m.insert(sender.clone());
+                                after.members[i] == m
+                            } else {
+                                after.members[i] == before.members[i]
+                            }
+                        });
+                    let csum = |s: &Snap| s.counters.values().map(|c| *c as u64).sum::<u64>();
+                    let foreign_counter = after
+                        .counters
+                        .iter()
+                        .filter(|(k, v)| before.counters.get(*k).copied().unwrap_or(0) != **v)
+                        .chain(before.counters.iter().filter(|(k, _)| !after.counters.contains_key(*k)))
+                        .find(|(k, _)| **k != eth && (dec.is_none() || decode_eth_manual(k) != dec))
+                        .map(|(k, _)| k.clone());
                     if !w.listed.contains(&eth) {
                         finding = bad("not-listed-accepted", format!("claim for {eth} accepted but it is not on the airdrop's list"));
                     } else if !well_formed(&sig, &eth) {
@@ -467,57 +585,119 @@ impl S {
                             "invalid-signature-accepted",
                             format!("signature is not a valid personal-sign signature by {eth} over the claim text for wallet {sender}"),
                         );
-                    } else if before.c >= w.limit || w.succ[&eth] > w.limit {
-                        finding = bad("limit-exceeded", format!("{eth} claimed {} times, per-address limit {}", w.succ[&eth], w.limit));
-                    } else if sender != air.as_str() && (after.s != before.s + w.amount || after.b + w.amount != before.b) {
-                        finding = bad("wrong-payout", format!("caller {}→{}, contract {}→{}, airdrop amount {}", before.s, after.s, before.b, after.b, w.amount));
-                    } else if !after.m {
-                        finding = bad("not-whitelisted", format!("caller {sender} is not on the collection whitelist after a successful claim"));
-                    } else if after.c != before.c + 1 {
-                        finding = bad("counter", format!("claim counter {}→{}", before.c, after.c));
+                    } else if w.succ[&eth] > w.limit || per_addr > w.limit * spell {
+                        finding = bad("limit-exceeded", format!("{eth} claimed {} times ({per_addr} for its 20-byte address, listed under {spell} spelling(s)), per-address limit {}", w.succ[&eth], w.limit));
+                    } else if w.strict && per_addr > w.limit {
+                        finding = bad(
+                            "limit-exceeded-per-address-listed-under-two-spellings",
+                            format!("the Ethereum address of {eth} claimed {per_addr} times, per-address limit {} (the list names it under {spell} spellings; eligibility and counter are per string)", w.limit),
+                        );
+                    } else if delta != want {
+                        finding = bad("wrong-payout", format!("bank changes {:?}, expected exactly {:?} (airdrop amount {} from the contract to the caller)", delta, want, w.amount));
+                    } else if !members_ok || !w.has_member(&sender) {
+                        finding = bad("not-whitelisted", format!("after a successful claim the attached collection whitelist (id {att}) must have gained exactly the caller {sender}, the other one nothing: {:?} → {:?}", before.members, after.members));
+                    } else if csum(&after) != csum(&before) + 1 || foreign_counter.is_some() {
+                        finding = bad("counter", format!("claim counters {:?} → {:?}: exactly one more claim must be recorded, for this address", before.counters, after.counters));
                     }
                 } else if before != after {
-                    finding = bad("failed-claim-effect", format!("failed claim changed state {:?} → {:?}", before, after));
+                    finding = bad("failed-claim-effect", format!("failed claim changed state: bank {:?}, counters {:?} → {:?}, members {:?} → {:?}", delta, before.counters, after.counters, before.members, after.members));
                 }
-                if finding.is_none() && after.b != w.expected_self_balance {
+                let b = w.bal(&air);
+                if finding.is_none() && b != w.expected_self_balance {
                     finding = bad(
                         "total-paid",
-                        format!("contract balance {} ≠ funded − {} successful claims × {} = {}", after.b, w.total_succ, w.amount, w.expected_self_balance),
+                        format!("contract balance {} ≠ funded − {} successful claims × {} = {}", b, w.total_succ, w.amount, w.expected_self_balance),
                     );
                 }
                 let e = w.eligible(&eth).unwrap_or(false);
                 (
                     format!("{line}{}", wit.render()),
-                    format!("{} b={} s={} c={} m={} n={} e={}", okerr(ok), after.b, after.s, after.c, after.m as u8, after.n, e as u8),
+                    format!("{} b={} s={} m={} e={} ## c={} n={}", okerr(ok), b, w.bal(&sender), w.has_member(&sender) as u8, e as u8, w.count(&eth), w.num_members()),
                 )
             }
-            "cwl_add" | "cwl_rm" => {
+            "exec_raw" => {
+                // any message other than ClaimAirdrop, to the airdrop contract or to its whitelist-immutable: must change nothing
+                let kind = kv(line, "kind").ok_or("kind")?.to_string();
+                let target = kv(line, "target").ok_or("target")?.to_string();
                 let sender = kv_s(line, "sender").ok_or("sender")?;
-                let who = kv_s(line, "who").ok_or("who")?;
+                let text = kv_s(line, "json").ok_or("json")?;
+                let msg: Value = serde_json::from_str(&text).map_err(|e| e.to_string())?;
                 let w = self.world();
-                let ok = match w.cwl.clone() {
+                let Some(air) = w.airdrop.clone() else {
+                    return Ok((line.to_string(), "raw b=0 el=0 x=0 cnt=0 lim=0 ## err".into(), None));
+                };
+                let (tgt, code) = match target.as_str() {
+                    "airdrop" => (air.clone(), w.mw.codes.eth_airdrop),
+                    "immutable" => (w.imm().ok_or("no whitelist-immutable")?, w.mw.wl_code(WlKind::Immutable)),
+                    _ => return Err("target".into()),
+                };
+                let (before, lbefore) = (w.snap(), w.list_snap());
+                let r = match kind.as_str() {
+                    "exec" => w.mw.exec(&sender, &tgt, &msg, &[]).map(|_| ()),
+                    "sudo" => w.mw.sudo(&tgt, &msg).map(|_| ()),
+                    "migrate" => w.mw.migrate(&sender, &tgt, code, &msg).map(|_| ()),
+                    _ => return Err("kind".into()),
+                };
+                let (after, lafter) = (w.snap(), w.list_snap());
+                let what = top_key(&msg);
+                if before.bank != after.bank {
+                    finding = bad("funds-moved", format!("{kind} `{what}` on the {target} contract moved coins: {:?} (only ClaimAirdrop may pay, and only the caller)", bank_delta(&before, &after)));
+                } else if lbefore != lafter || lafter.listed_eligible != w.listed.len() as u64 || lafter.probes_eligible != 0 || lafter.limit != w.limit {
+                    finding = bad("list-changed", format!("{kind} `{what}` on the {target} contract changed the airdrop's list / limit: {:?} → {:?} (instantiated with {} addresses, limit {})", lbefore, lafter, w.listed.len(), w.limit));
+                } else if before.counters != after.counters {
+                    finding = bad("counter-changed", format!("{kind} `{what}` on the {target} contract changed the claim counters {:?} → {:?}", before.counters, after.counters));
+                } else if before.members != after.members {
+                    finding = bad("whitelist-changed", format!("{kind} `{what}` on the {target} contract changed a collection whitelist {:?} → {:?}", before.members, after.members));
+                }
+                (
+                    line.to_string(),
+                    format!("raw b={} el={} x={} cnt={} lim={} ## {}", w.bal(&air), lafter.listed_eligible, lafter.probes_eligible, lafter.count, lafter.limit, okerr(r.is_ok())),
+                )
+            }
+            "cwl_add" | "cwl_rm" | "cwl_admins" | "cwl_freeze" => {
+                // administration of the collection whitelist the harness attached: environment of this property
+                let sender = kv_s(line, "sender").ok_or("sender")?;
+                let w = self.world();
+                let msg = match op.as_str() {
+                    "cwl_add" => json!({"add_members": {"to_add": [kv_s(line, "who").ok_or("who")?]}}),
+                    "cwl_rm" => json!({"remove_members": {"to_remove": [kv_s(line, "who").ok_or("who")?]}}),
+                    "cwl_admins" => json!({"update_admins": {"admins": kv_slist(line, "admins").ok_or("admins")?}}),
+                    _ => json!({"freeze": {}}),
+                };
+                let ok = match w.attached_addr() {
                     None => false,
-                    Some(c) => {
-                        let msg = if op == "cwl_add" {
-                            sg_whitelist::msg::ExecuteMsg::AddMembers(sg_whitelist::msg::AddMembersMsg { to_add: vec![who.clone()] })
-                        } else {
-                            sg_whitelist::msg::ExecuteMsg::RemoveMembers(sg_whitelist::msg::RemoveMembersMsg { to_remove: vec![who.clone()] })
-                        };
-                        w.app.execute_contract(Addr::unchecked(&sender), c, &msg, &[]).is_ok()
+                    Some(c) => w.mw.exec(&sender, &c, &msg, &[]).is_ok(),
+                };
+                let primary = if op == "cwl_add" || op == "cwl_rm" {
+                    let who = kv_s(line, "who").ok_or("who")?;
+                    let m = w.attached_addr().map(|c| w.members_of(&c).contains(&who)).unwrap_or(false);
+                    format!("m={} ## {} n={}", m as u8, okerr(ok), if w.attached > 0 { w.num_members() } else { 0 })
+                } else {
+                    let n = w.attached_addr().and_then(|c| w.mw.query(&c, &json!({"admin_list": {}})).ok()).and_then(|v| v["admins"].as_array().map(|a| a.len())).unwrap_or(0);
+                    format!("a={} ## {}", n, okerr(ok))
+                };
+                (format!("{line} res={}", okerr(ok)), primary)
+            }
+            "set_wl" => {
+                // the minter admin points the minter to (another) collection whitelist
+                let id = kv_u64(line, "id").ok_or("id")? as usize;
+                let w = self.world();
+                let ok = match w.wls.get(id.wrapping_sub(1)).cloned() {
+                    None => false,
+                    Some(a) => {
+                        let minter = w.minter.clone();
+                        w.mw.exec(&addr(MINTER_ADMIN), &minter, &json!({"set_whitelist": {"whitelist": a}}), &[]).is_ok()
                     }
                 };
-                let n = if w.cwl.is_some() { w.num_members() } else { 0 };
-                (line.to_string(), format!("{} n={} m={}", okerr(ok), n, w.has_member(&who) as u8))
+                if ok {
+                    w.attached = id;
+                }
+                (format!("{line} res={}", okerr(ok)), format!("wl={}", w.minter_wl_id()))
             }
-            "cwl_admins" => {
-                let sender = kv_s(line, "sender").ok_or("sender")?;
-                let admins = kv_slist(line, "admins").ok_or("admins")?;
-                let w = self.world();
-                let ok = match w.cwl.clone() {
-                    None => false,
-                    Some(c) => w.app.execute_contract(Addr::unchecked(&sender), c, &sg_whitelist::msg::ExecuteMsg::UpdateAdmins { admins }, &[]).is_ok(),
-                };
-                (line.to_string(), okerr(ok).to_string())
+            "time" => {
+                let t = kv_u64(line, "t").ok_or("t")?;
+                self.world().mw.set_time(t);
+                (line.to_string(), "ok".into())
             }
             "q_elig" => {
                 let eth = kv_s(line, "eth").ok_or("eth")?;
@@ -537,17 +717,13 @@ impl S {
                 let w = self.world();
                 match w.airdrop.clone() {
                     None => (line.to_string(), "err".into()),
-                    Some(a) => {
-                        let raw = w.app.wrap().query_wasm_raw(a, b"cfg".to_vec()).map_err(|e| e.to_string())?.ok_or("no cfg")?;
-                        let cfg: serde_json::Value = serde_json::from_slice(&raw).map_err(|e| e.to_string())?;
-                        let imm = cfg["whitelist_address"].as_str().ok_or("no whitelist_address")?.to_string();
-                        let count: u64 = w.app.wrap().query_wasm_smart(&imm, &whitelist_immutable::msg::QueryMsg::AddressCount {}).map_err(|e| e.to_string())?;
-                        let limit: u32 = w.app.wrap().query_wasm_smart(&imm, &whitelist_immutable::msg::QueryMsg::PerAddressLimit {}).map_err(|e| e.to_string())?;
+                    Some(_) => {
+                        let l = w.list_snap();
                         let distinct = w.listed.len() as u64;
-                        if count != distinct || limit as u64 != w.limit {
-                            finding = bad("immutable-list", format!("whitelist-immutable has {count} addresses / limit {limit}; instantiated with {distinct} distinct / {}", w.limit));
+                        if l.count != distinct || l.limit != w.limit || l.listed_eligible != distinct || l.probes_eligible != 0 {
+                            finding = bad("immutable-list", format!("whitelist-immutable: {:?}; instantiated with {distinct} distinct addresses / limit {}", l, w.limit));
                         }
-                        (line.to_string(), format!("ok count={count} limit={limit}"))
+                        (line.to_string(), format!("ok count={} limit={}", l.count, l.limit))
                     }
                 }
             }
@@ -556,8 +732,8 @@ impl S {
                 match w.airdrop.clone() {
                     None => (line.to_string(), "err".into()),
                     Some(a) => {
-                        let m: Addr = w.app.wrap().query_wasm_smart(a, &sg_eth_airdrop::msg::QueryMsg::GetMinter {}).map_err(|e| e.to_string())?;
-                        (line.to_string(), format!("ok {}", (m == w.minter) as u8))
+                        let m = w.mw.query(&a, &json!({"get_minter": {}}))?;
+                        (line.to_string(), format!("ok {}", (m.as_str() == Some(w.minter.as_str())) as u8))
                     }
                 }
             }
@@ -677,25 +853,232 @@ impl Sut for S {
     }
 }
 
-/// Wildcard-free matches over the message enums the model covers: a new / renamed message kind (say, a way to
-/// withdraw coins or to edit the immutable list) stops this file from compiling instead of going unnoticed.
-#[allow(dead_code)]
-fn message_surface(e: &sg_eth_airdrop::msg::ExecuteMsg, q: &sg_eth_airdrop::msg::QueryMsg) -> (&'static str, &'static str) {
-    use sg_eth_airdrop::msg::{ExecuteMsg as E, QueryMsg as Q};
-    (
-        match e {
-            E::ClaimAirdrop { eth_address: _, eth_sig: _ } => "claim",
-        },
-        match q {
-            Q::AirdropEligible { eth_address: _ } => "q_elig",
-            Q::GetMinter {} => "q_minter",
-        },
-    )
+// ------------------------------------------------------------------------------------------------ run-time message surface
+
+/// execute variants this file drives by name
+const KNOWN_AIRDROP_EXEC: [&str; 1] = ["claim_airdrop"];
+const KNOWN_IMMUTABLE_EXEC: [&str; 0] = [];
+
+fn airdrop_exec_schema() -> Value {
+    serde_json::to_value(cosmwasm_schema::schema_for!(sg_eth_airdrop::msg::ExecuteMsg)).expect("schema to json")
 }
-/// whitelist-immutable has no execute messages at all: the airdrop's list cannot be edited
-#[allow(dead_code)]
-fn immutable_surface(i: &whitelist_immutable::msg::ExecuteMsg) -> ! {
-    match *i {}
+fn immutable_exec_schema() -> Value {
+    serde_json::to_value(cosmwasm_schema::schema_for!(whitelist_immutable::msg::ExecuteMsg)).expect("schema to json")
+}
+
+/// (variant name in snake case, schema of its payload; None for a unit variant serialised as a bare string)
+fn schema_variants(root: &Value) -> Vec<(String, Option<Value>)> {
+    let mut out = vec![];
+    let mut alts: Vec<Value> = vec![];
+    for k in ["oneOf", "anyOf"] {
+        if let Some(a) = root[k].as_array() {
+            alts.extend(a.iter().cloned());
+        }
+    }
+    if alts.is_empty() {
+        alts.push(root.clone());
+    }
+    for alt in alts {
+        if let Some(en) = alt["enum"].as_array() {
+            for e in en {
+                if let Some(s) = e.as_str() {
+                    out.push((s.to_string(), None));
+                }
+            }
+        } else if let Some(req) = alt["required"].as_array() {
+            if let Some(name) = req.first().and_then(|x| x.as_str()) {
+                out.push((name.to_string(), Some(alt["properties"][name].clone())));
+            }
+        }
+    }
+    out.sort_by(|a, b| a.0.cmp(&b.0));
+    out.dedup_by(|a, b| a.0 == b.0);
+    out
+}
+
+/// minimal JSON value for a schema: integers = k, strings = `who` when the field name looks like an account, else `eth`
+/// (an address string that is NOT on the list), options = null, arrays = one element
+fn fill(s: &Value, defs: &Value, k: u64, hint: &str, who: &str, eth: &str, depth: u32) -> Value {
+    if depth > 8 {
+        return Value::Null;
+    }
+    if let Some(r) = s["$ref"].as_str() {
+        let name = r.rsplit('/').next().unwrap_or("");
+        return fill(&defs[name], defs, k, hint, who, eth, depth + 1);
+    }
+    if let Some(a) = s["allOf"].as_array() {
+        if let Some(f) = a.first() {
+            return fill(f, defs, k, hint, who, eth, depth + 1);
+        }
+    }
+    for key in ["anyOf", "oneOf"] {
+        if let Some(a) = s[key].as_array() {
+            if let Some(f) = a.iter().find(|x| x["type"] != "null") {
+                if let Some(req) = f["required"].as_array().and_then(|r| r.first()).and_then(|x| x.as_str()) {
+                    let mut m = Map::new();
+                    m.insert(req.to_string(), fill(&f["properties"][req], defs, k, req, who, eth, depth + 1));
+                    return Value::Object(m);
+                }
+                return fill(f, defs, k, hint, who, eth, depth + 1);
+            }
+            return Value::Null;
+        }
+    }
+    if let Some(en) = s["enum"].as_array() {
+        return en.first().cloned().unwrap_or(Value::Null);
+    }
+    let ty: String = match &s["type"] {
+        Value::String(t) => t.clone(),
+        Value::Array(ts) => ts.iter().filter_map(|t| t.as_str()).find(|t| *t != "null").unwrap_or("").to_string(),
+        _ => String::new(),
+    };
+    match ty.as_str() {
+        "integer" | "number" => json!(k),
+        "string" => {
+            let h = hint.to_lowercase();
+            if h.contains("eth") || h.contains("addresses") || h.contains("members") {
+                json!(eth)
+            } else if ["addr", "recipient", "to", "whitelist", "contract", "owner", "sender", "admin", "wallet", "minter"].iter().any(|w| h.contains(w)) {
+                json!(who)
+            } else {
+                json!(k.to_string())
+            }
+        }
+        "boolean" => json!(k % 2 == 1),
+        "array" => json!([fill(&s["items"], defs, k, hint, who, eth, depth + 1)]),
+        "object" => {
+            let mut m = Map::new();
+            if let Some(req) = s["required"].as_array() {
+                for r in req.iter().filter_map(|x| x.as_str()) {
+                    m.insert(r.to_string(), fill(&s["properties"][r], defs, k, r, who, eth, depth + 1));
+                }
+            }
+            Value::Object(m)
+        }
+        _ => Value::Null,
+    }
+}
+
+/// raw messages (a few argument fillings each) for every variant of `root` that is not in `known`
+fn unknown_variant_msgs(root: &Value, known: &[&str], who: &str, eth: &str) -> Vec<(String, Value)> {
+    let defs = &root["definitions"];
+    let mut out = vec![];
+    for (n, sch) in schema_variants(root) {
+        if known.contains(&n.as_str()) {
+            continue;
+        }
+        match sch {
+            None => out.push((n.clone(), Value::String(n))),
+            Some(s) => {
+                for k in [1u64, 1_000_000_000_000] {
+                    let mut m = Map::new();
+                    m.insert(n.clone(), fill(&s, defs, k, &n, who, eth, 0));
+                    out.push((n.clone(), Value::Object(m)));
+                }
+            }
+        }
+    }
+    out
+}
+
+fn top_key(msg: &Value) -> String {
+    match msg {
+        Value::String(s) => s.clone(),
+        Value::Object(m) => m.keys().next().cloned().unwrap_or_else(|| "{}".into()),
+        _ => "?".into(),
+    }
+}
+
+/// messages neither contract has today (hypothetical ways to take the funds out / edit the list): kept in the generator so
+/// that the monitors are in place the day one of them is dispatched
+fn hypothetical_msgs(target: &str, who: &str, listed: &str) -> Vec<Value> {
+    if target == "airdrop" {
+        vec![
+            json!({"withdraw": {}}),
+            json!("withdraw"),
+            json!({"withdraw_remaining": {"recipient": who}}),
+            json!({"update_config": {"airdrop_amount": 1, "claim_msg_plaintext": "x", "admin": who}}),
+            json!({"update_admin": {"admin": who}}),
+            json!({"add_addresses": {"addresses": [PROBE]}}),
+            json!({"remove_addresses": {"addresses": [listed]}}),
+            json!({"update_per_address_limit": {"limit": 99}}),
+            json!({"reset_claims": {"eth_address": listed}}),
+            json!({"burn": {}}),
+            json!({"claim": {"eth_address": listed}}),
+            json!({}),
+        ]
+    } else {
+        vec![
+            json!({"add_addresses": {"addresses": [PROBE]}}),
+            json!({"add_members": {"to_add": [PROBE]}}),
+            json!({"remove_addresses": {"addresses": [listed]}}),
+            json!({"remove_members": {"to_remove": [listed]}}),
+            json!({"update_per_address_limit": {"limit": 99}}),
+            json!({"update_per_address_limit": 99}),
+            json!({"update_admin": {"admin": who}}),
+            json!({"freeze": {}}),
+            json!({}),
+        ]
+    }
+}
+
+fn raw_line(kind: &str, target: &str, sender: &str, msg: &Value) -> String {
+    format!("exec_raw kind={kind} target={target} sender={} json={}", hxs(sender), hxs(&msg.to_string()))
+}
+
+/// the bounds `instantiate` puts on `airdrop_amount` (private constants of the crate), found by bisection on the real
+/// `instantiate` in a scratch world: (least accepted, greatest accepted if there is one below 2^64)
+fn discover_amount_bounds() -> (u128, Option<u128>) {
+    let mut w = World::new(&format!("case scratch nwl=0 wl=0 wlimit=0 admin={}", hxs(CREATOR)));
+    let mut accepts = |amount: u128| -> bool {
+        w.mw.fund(INST_SENDER, 0, FEE);
+        let msg = serde_json::to_value(InstJson {
+            admin: INST_SENDER.into(),
+            claim_msg_plaintext: "{wallet}".into(),
+            airdrop_amount: amount.to_string(),
+            addresses: vec![PROBE.into()],
+            whitelist_code_id: w.mw.wl_code(WlKind::Immutable),
+            minter_address: w.minter.clone(),
+            per_address_limit: 1,
+        })
+        .unwrap();
+        let code = w.mw.codes.eth_airdrop;
+        w.mw.instantiate(code, INST_SENDER, &msg, &[(0, FEE)], None).is_ok()
+    };
+    let top: u128 = u64::MAX as u128; // serde_json::Value carries integers up to u64
+    // some accepted amount: try a few magnitudes
+    let Some(mid) = [66_000_000u128, 1, 1_000, 1_000_000_000_000, 1 << 62].into_iter().find(|a| accepts(*a)) else {
+        return (10_000_000, Some(100_000_000_000_000));
+    };
+    let (mut lo, mut hi) = (0u128, mid); // accepts(hi), !accepts(lo) or lo = 0
+    let min = if accepts(0) {
+        0
+    } else {
+        while hi - lo > 1 {
+            let m = lo + (hi - lo) / 2;
+            if accepts(m) {
+                hi = m
+            } else {
+                lo = m
+            }
+        }
+        hi
+    };
+    let max = if accepts(top) {
+        None
+    } else {
+        let (mut lo, mut hi) = (mid, top); // accepts(lo), !accepts(hi)
+        while hi - lo > 1 {
+            let m = lo + (hi - lo) / 2;
+            if accepts(m) {
+                lo = m
+            } else {
+                hi = m
+            }
+        }
+        Some(lo)
+    };
+    (min, max)
 }
 
 // ------------------------------------------------------------------------------------------------ generators
@@ -771,7 +1154,7 @@ const TEMPLATES: &[&str] = &[
 ];
 const WALLETS: &[&str] = &[
     "acct00001", "acct00002", "acct00003", "acct000031", "acct0000", "{wallet}", "a{wallet}b", "wallet}", "{wallet", "stars1qqqq4kdla12mh86psg4y4h6hh05g2hmqoap350",
-    "stars1qqqq4kdla12mh86psg4y4h6hh05g2hmqoap35", "buyer2", "xyz",
+    "stars1qqqq4kdla12mh86psg4y4h6hh05g2hmqoap35", "buyer2", "xyz", CREATOR, "acct00010", INST_SENDER,
 ];
 
 struct Scn {
@@ -787,8 +1170,12 @@ fn claim_line(sender: &str, eth: &str, sig: &str) -> String {
 
 /// one claim op of mutation kind `kind`; returns (line, kind label)
 fn gen_claim(rng: &mut Rng, sc: &Scn, kind: u64, ki: usize, wi: usize) -> (String, &'static str) {
+    gen_claim_as(rng, sc, kind, ki, wi, None)
+}
+/// `who`: claim as this account instead of `WALLETS[wi]` (the airdrop contract itself, for instance)
+fn gen_claim_as(rng: &mut Rng, sc: &Scn, kind: u64, ki: usize, wi: usize, who: Option<&str>) -> (String, &'static str) {
     let k = &sc.keys[ki];
-    let w = WALLETS[wi];
+    let w = who.unwrap_or(WALLETS[wi]);
     let text = sc.template.replace("{wallet}", w);
     let good = sign(k, &text, false);
     let h = |b: &[u8]| hex::encode(b);
@@ -904,24 +1291,24 @@ fn malformed_eth(eth: &str, which: u64) -> String {
     }
 }
 
-/// the state class a claim for `eth` meets (harness-side observations only): listed? below the limit?
+/// the state class a claim for `eth` meets (harness-side bookkeeping + whitelist queries): listed? below the limit?
 /// collection whitelist: none / airdrop contract not an admin / full / open; contract solvent?
 fn state_class(sut: &S, eth: &str) -> String {
     let Some(w) = sut.w.as_ref() else { return "-".into() };
     let Some(air) = w.airdrop.as_ref() else { return "noinst".into() };
-    let c = w.count(eth);
-    let wl = match &w.cwl {
+    let c = w.succ.get(eth).copied().unwrap_or(0);
+    let wl = match w.attached_addr() {
         None => "nowl",
         Some(c) => {
             let admins: Vec<String> = w
-                .app
-                .wrap()
-                .query_wasm_smart::<sg_whitelist::msg::AdminListResponse>(c, &sg_whitelist::msg::QueryMsg::AdminList {})
-                .map(|r| r.admins)
+                .mw
+                .query(&c, &json!({"admin_list": {}}))
+                .ok()
+                .and_then(|v| v["admins"].as_array().map(|a| a.iter().filter_map(|x| x.as_str().map(String::from)).collect()))
                 .unwrap_or_default();
-            let cfg = w.app.wrap().query_wasm_smart::<sg_whitelist::msg::ConfigResponse>(c, &sg_whitelist::msg::QueryMsg::Config {}).ok();
-            let full = cfg.map(|c| c.num_members >= c.member_limit).unwrap_or(false);
-            if !admins.iter().any(|a| a == air.as_str()) {
+            let cfg = w.mw.query(&c, &json!({"config": {}})).ok();
+            let full = cfg.map(|c| c["num_members"].as_u64().unwrap_or(0) >= c["member_limit"].as_u64().unwrap_or(0)).unwrap_or(false);
+            if !admins.iter().any(|a| a == air) {
                 "notadmin"
             } else if full {
                 "full"
@@ -935,16 +1322,34 @@ fn state_class(sut: &S, eth: &str) -> String {
         if w.listed.contains(eth) { "L" } else { "u" },
         if c < w.limit { "<" } else { "=" },
         wl,
-        if w.bal(air.as_str()) >= w.amount { "$" } else { "!" }
+        if w.bal(air) >= w.amount { "$" } else { "!" }
     )
 }
 
-fn run_world_case(ses: &mut Session, sut: &mut S, rng: &mut Rng, idx: u64, n_ops: u64) {
+fn header(name: &str, nwl: u64, wl: bool, wlimit: u64, wlimit2: u64) -> String {
+    format!("case {name} nwl={nwl} wl={} wlimit={wlimit} wlimit2={wlimit2} admin={} now={NOW0} wlstart={WL_START} strict=0", wl as u8, hxs(CREATOR))
+}
+fn first_word(o: &str) -> &str {
+    o.split(' ').next().unwrap_or("")
+}
+
+/// the run-wide generator context: amount bounds found on the real code, raw messages for variants found in the schemas
+struct Ctx {
+    min: u128,
+    max: Option<u128>,
+    /// the amount used by the scripted worlds (66 STARS unless the bounds exclude it)
+    amt: u128,
+    unknown_airdrop: Vec<(String, Value)>,
+    unknown_immutable: Vec<(String, Value)>,
+}
+
+fn run_world_case(ses: &mut Session, sut: &mut S, rng: &mut Rng, cx: &Ctx, idx: u64, n_ops: u64) {
     // ---------- scenario
-    let wl = !rng.chance(1, 12);
+    let nwl = *rng.pick(&[0u64, 1, 1, 1, 2, 2, 2, 2, 2, 2, 2, 2]);
+    let wl = nwl >= 1 && !rng.chance(1, 12);
     let wlimit = *rng.pick(&[1u64, 2, 3, 5, 40, 40, 40, 40, 40, 40, 40, 40]);
-    let header = format!("case world-{idx} wl={} wlimit={wlimit} admin={}", wl as u8, hxs(CREATOR));
-    ses.begin_case(sut, &header);
+    let wlimit2 = *rng.pick(&[1u64, 3, 40, 40, 40]);
+    ses.begin_case(sut, &header(&format!("world-{idx}"), nwl, wl, wlimit, wlimit2));
     let nkeys = rng.range(2, 4) as usize;
     let keys: Vec<Key> = (0..nkeys)
         .map(|_| {
@@ -954,7 +1359,8 @@ fn run_world_case(ses: &mut Session, sut: &mut S, rng: &mut Rng, idx: u64, n_ops
         .collect();
     let template = if rng.chance(1, 15) { format!("{}{}", "z".repeat(992 - rng.below(3) as usize), "{wallet}") } else { rng.pick(TEMPLATES).to_string() };
     let limit = *rng.pick(&[0u64, 1, 1, 2, 3, 4, 6, 9, 15]);
-    let amount = *rng.pick(&[MIN_AIRDROP, MIN_AIRDROP + 1, 66_000_000, 123_456_789, 1_000_000_000]);
+    let amount = *rng.pick(&[cx.min, cx.min + 1, cx.amt, cx.amt + 57_456_789, cx.amt * 15]);
+    let amount = amount.min(cx.max.unwrap_or(u128::MAX));
     // the list: most keys, sometimes other casings, malformed entries, duplicates
     let mut list: Vec<String> = vec![];
     for (i, k) in keys.iter().enumerate() {
@@ -975,17 +1381,16 @@ fn run_world_case(ses: &mut Session, sut: &mut S, rng: &mut Rng, idx: u64, n_ops
     let claims_funded = if rng.chance(1, 4) { rng.range(0, 3) } else { rng.range(3, 30) } as u128;
     let short = if rng.chance(1, 4) { 1 } else { 0 };
     let funding = FEE + (amount * claims_funded).saturating_sub(short);
-    let inst_sender = "acct00900";
-    ses.step(sut, &format!("fund to={} amt={}", hxs(inst_sender), funding + 5));
+    ses.step(sut, &format!("fund to={} amt={}", hxs(INST_SENDER), funding + 5));
     // ---------- instantiate (sometimes first a faulty attempt)
     let inst = |tpl: &str, amount: u128, funds: &str, addrs: &[String], limit: u64| {
-        format!("inst sender={} funds={funds} amount={amount} limit={limit} tpl={} addrs={}", hxs(inst_sender), hxs(tpl), hx_list(addrs))
+        format!("inst sender={} funds={funds} amount={amount} limit={limit} tpl={} addrs={}", hxs(INST_SENDER), hxs(tpl), hx_list(addrs))
     };
     if rng.chance(1, 3) {
         let f = rng.below(12);
         let l = match f {
-            0 => inst(&template, MIN_AIRDROP - 1, &format!("0:{funding}"), &list, limit),
-            1 => inst(&template, MAX_AIRDROP + 1, &format!("0:{funding}"), &list, limit),
+            0 => inst(&template, cx.min.saturating_sub(1), &format!("0:{funding}"), &list, limit),
+            1 => inst(&template, cx.max.map(|m| m + 1).unwrap_or(0), &format!("0:{funding}"), &list, limit),
             2 => inst(&template.replace("{wallet}", "{wallet"), amount, &format!("0:{funding}"), &list, limit),
             3 => inst(&format!("{}{}", "z".repeat(993), "{wallet}"), amount, &format!("0:{funding}"), &list, limit),
             4 => inst(&template, amount, &format!("0:{}", FEE - 1), &list, limit),
@@ -998,29 +1403,31 @@ fn run_world_case(ses: &mut Session, sut: &mut S, rng: &mut Rng, idx: u64, n_ops
             _ => inst(&template, 0, &format!("0:{funding}"), &list, limit),
         };
         let o = ses.step(sut, &l);
-        ses.mark(format!("inst:fault{f}:{}", o.split(' ').next().unwrap_or("")));
+        ses.mark(format!("inst:fault{f}:{}", first_word(&o)));
     }
-    // claims before the contract exists
+    // claims and foreign messages before the contract exists
     if rng.chance(1, 10) {
         let sc0 = Scn { keys: keys.clone(), template: template.clone(), limit, live: false };
         let (l, _) = gen_claim(rng, &sc0, 0, 0, 0);
         ses.step(sut, &l);
         ses.step(sut, &format!("q_elig eth={}", hxs(&keys[0].eth)));
+        ses.step(sut, &raw_line("exec", "airdrop", "acct00001", &json!({"withdraw": {}})));
         ses.mark("claim:before-inst");
     }
     let live = sut.w.as_ref().map(|w| w.airdrop.is_some()).unwrap_or(false);
     if !live {
         let o = ses.step(sut, &inst(&template, amount, &format!("0:{funding}"), &list, limit));
-        ses.mark(format!("inst:valid:{}:tpl{}:lim{limit}", o.split(' ').next().unwrap_or(""), template.len().min(1000) / 500));
+        ses.mark(format!("inst:valid:{}:tpl{}:lim{limit}", first_word(&o), template.len().min(1000) / 500));
     }
     let live = sut.w.as_ref().map(|w| w.airdrop.is_some()).unwrap_or(false);
     let sc = Scn { keys, template, limit, live };
     if !sc.live {
+        ses.mark("world:not-live");
         ses.end_case();
         return;
     }
-    let me = sut.w.as_ref().unwrap().airdrop.clone().unwrap().to_string();
-    // make the airdrop contract an admin of the collection whitelist (as the repo's test does) — mostly
+    let me = sut.w.as_ref().unwrap().airdrop.clone().unwrap();
+    // make the airdrop contract an admin of the attached collection whitelist (as the repo's test does) — mostly
     let admin_mode = rng.below(14);
     if admin_mode > 0 {
         ses.step(sut, &format!("cwl_admins sender={} admins={}", hxs(CREATOR), hx_list(&[CREATOR.to_string(), me.clone()])));
@@ -1031,35 +1438,37 @@ fn run_world_case(ses: &mut Session, sut: &mut S, rng: &mut Rng, idx: u64, n_ops
     ses.step(sut, "q_minter");
     ses.step(sut, "q_imm");
     // ---------- operations
+    let times = [WL_START - 1, WL_START, WL_START + 1, WL_END - 1, WL_END, WL_END + 1, MINTER_START - 1, MINTER_START, MINTER_START + 1, NOW0 + 7];
     for _ in 0..n_ops {
         let r = rng.below(100);
-        if r < 78 {
+        if r < 70 {
             let ki = rng.below(sc.keys.len() as u64) as usize;
             let wi = rng.below(WALLETS.len() as u64) as usize;
             let kind = if rng.chance(11, 20) { rng.below(3) } else { 3 + rng.below(13) };
-            let (l, label) = gen_claim(rng, &sc, kind, ki, wi);
+            let as_self = rng.chance(1, 40);
+            let (l, label) = gen_claim_as(rng, &sc, kind, ki, wi, if as_self { Some(me.as_str()) } else { None });
             let eth = kv_s(&l, "eth").unwrap();
             let cls = state_class(sut, &eth);
             let o = ses.step(sut, &l);
-            ses.count(&format!("claim-kind:{label}:{}", o.split(' ').next().unwrap_or("")));
+            ses.count(&format!("claim-kind:{label}:{}", first_word(&o)));
             if kind < 3 {
-                ses.count(&format!("valid-claim-meets:{cls}:{}", o.split(' ').next().unwrap_or("")));
+                ses.count(&format!("valid-claim-meets:{cls}:{}", first_word(&o)));
             }
-            ses.mark(format!("claim:{label}:{}:{cls}", o.split(' ').next().unwrap_or("")));
-        } else if r < 84 {
+            ses.mark(format!("claim:{label}:{}:{cls}{}", first_word(&o), if as_self { ":as-contract" } else { "" }));
+        } else if r < 75 {
             let amt = *rng.pick(&[1u128, sc_amount(sut), sc_amount(sut) - 1, 5 * sc_amount(sut)]);
             ses.step(sut, &format!("fund to={} amt={amt}", hxs(&me)));
             ses.mark("fund:self");
-        } else if r < 90 {
+        } else if r < 80 {
             let who = *rng.pick(WALLETS);
             let sender = if rng.chance(4, 5) { CREATOR } else { "buyer" };
             let o = ses.step(sut, &format!("cwl_add sender={} who={}", hxs(sender), hxs(who)));
-            ses.mark(format!("cwl_add:{}:{}", sender, o.split(' ').next().unwrap_or("")));
-        } else if r < 94 {
+            ses.mark(format!("cwl_add:{}:{}:{}", sender, first_word(&o), o.split(" ## ").nth(1).unwrap_or("").split(' ').next().unwrap_or("")));
+        } else if r < 83 {
             let who = *rng.pick(WALLETS);
             let o = ses.step(sut, &format!("cwl_rm sender={} who={}", hxs(CREATOR), hxs(who)));
-            ses.mark(format!("cwl_rm:{}", o.split(' ').next().unwrap_or("")));
-        } else if r < 97 {
+            ses.mark(format!("cwl_rm:{}", o.split(" ## ").nth(1).unwrap_or("").split(' ').next().unwrap_or("")));
+        } else if r < 86 {
             let with_me = rng.chance(5, 6);
             let sender = if rng.chance(5, 6) { CREATOR } else { "buyer" };
             let mut admins = vec![CREATOR.to_string()];
@@ -1067,7 +1476,34 @@ fn run_world_case(ses: &mut Session, sut: &mut S, rng: &mut Rng, idx: u64, n_ops
                 admins.push(me.clone());
             }
             let o = ses.step(sut, &format!("cwl_admins sender={} admins={}", hxs(sender), hx_list(&admins)));
-            ses.mark(format!("cwl_admins:{with_me}:{}", o.split(' ').next().unwrap_or("")));
+            ses.mark(format!("cwl_admins:{with_me}:{}", o.split(" ## ").nth(1).unwrap_or("")));
+        } else if r < 87 {
+            let o = ses.step(sut, &format!("cwl_freeze sender={}", hxs(if rng.chance(3, 4) { CREATOR } else { "buyer" })));
+            ses.mark(format!("cwl_freeze:{}", o.split(" ## ").nth(1).unwrap_or("")));
+        } else if r < 91 {
+            // the minter admin swaps the collection whitelist between two claims
+            let id = rng.range(1, 2);
+            let o = ses.step(sut, &format!("set_wl id={id}"));
+            ses.mark(format!("set_wl:to{id}:{o}"));
+            if rng.chance(3, 4) {
+                ses.step(sut, &format!("cwl_admins sender={} admins={}", hxs(CREATOR), hx_list(&[CREATOR.to_string(), me.clone()])));
+            }
+        } else if r < 93 {
+            let t = *rng.pick(&times);
+            ses.step(sut, &format!("time t={t}"));
+            ses.mark(format!("time:{}", if t < WL_START { "before-wl" } else if t < WL_END { "wl-active" } else if t < MINTER_START { "wl-ended" } else { "minting" }));
+        } else if r < 98 {
+            // anything but ClaimAirdrop, to the airdrop contract or its list
+            let target = if rng.chance(1, 2) { "airdrop" } else { "immutable" };
+            let who = *rng.pick(&["acct00001", INST_SENDER, CREATOR, "SELF"]);
+            let who = if who == "SELF" { me.as_str() } else { who };
+            let listed = sc.keys[0].eth.clone();
+            let mut pool = hypothetical_msgs(target, who, &listed);
+            pool.extend((if target == "airdrop" { &cx.unknown_airdrop } else { &cx.unknown_immutable }).iter().map(|(_, m)| m.clone()));
+            let msg = rng.pick(&pool).clone();
+            let kind = *rng.pick(&["exec", "exec", "exec", "sudo", "migrate"]);
+            let o = ses.step(sut, &raw_line(kind, target, who, &msg));
+            ses.mark(format!("exec_raw:{target}:{kind}:{}", o.split(" ## ").nth(1).unwrap_or("")));
         } else {
             let k = rng.pick(&sc.keys).clone();
             let e = if rng.chance(1, 2) { k.eth.clone() } else { malformed_eth(&k.eth, rng.below(6)) };
@@ -1075,29 +1511,36 @@ fn run_world_case(ses: &mut Session, sut: &mut S, rng: &mut Rng, idx: u64, n_ops
         }
     }
     let _ = sc.limit;
+    ses.step(sut, "q_imm");
     ses.end_case();
 }
 fn sc_amount(sut: &S) -> u128 {
-    sut.w.as_ref().map(|w| w.amount).unwrap_or(MIN_AIRDROP)
+    sut.w.as_ref().map(|w| w.amount).unwrap_or(10_000_000)
 }
 
 /// a fixed, fully valid deployment: `nkeys` listed keys, airdrop contract is whitelist admin, funded for `funded` claims
-fn std_world(ses: &mut Session, sut: &mut S, rng: &mut Rng, name: &str, template: &str, limit: u64, nkeys: usize, funded: u128, wlimit: u64) -> (Scn, String) {
+fn std_world(ses: &mut Session, sut: &mut S, rng: &mut Rng, cx: &Ctx, name: &str, template: &str, limit: u64, nkeys: usize, funded: u128, wlimit: u64) -> (Scn, String) {
     let keys: Vec<Key> = (0..nkeys).map(|_| new_key(rng, 5)).collect();
-    std_world_with(ses, sut, keys, name, template, limit, funded, wlimit)
+    std_world_with(ses, sut, cx, keys, name, template, limit, funded, wlimit, 1)
 }
-fn std_world_with(ses: &mut Session, sut: &mut S, keys: Vec<Key>, name: &str, template: &str, limit: u64, funded: u128, wlimit: u64) -> (Scn, String) {
-    ses.begin_case(sut, &format!("case {name} wl=1 wlimit={wlimit} admin={}", hxs(CREATOR)));
+fn std_world_with(ses: &mut Session, sut: &mut S, cx: &Ctx, keys: Vec<Key>, name: &str, template: &str, limit: u64, funded: u128, wlimit: u64, nwl: u64) -> (Scn, String) {
     let list: Vec<String> = keys.iter().map(|k| k.eth.clone()).collect();
-    let amount = 66_000_000u128;
-    ses.step(sut, &format!("fund to={} amt={}", hxs("acct00900"), FEE + amount * funded));
+    std_world_list(ses, sut, cx, keys, list, name, template, limit, funded, wlimit, nwl)
+}
+fn std_world_list(ses: &mut Session, sut: &mut S, cx: &Ctx, keys: Vec<Key>, list: Vec<String>, name: &str, template: &str, limit: u64, funded: u128, wlimit: u64, nwl: u64) -> (Scn, String) {
+    ses.begin_case(sut, &header(name, nwl, true, wlimit, wlimit));
+    let amount = cx.amt;
+    ses.step(sut, &format!("fund to={} amt={}", hxs(INST_SENDER), FEE + amount * funded));
     ses.step(
         sut,
-        &format!("inst sender={} funds=0:{} amount={amount} limit={limit} tpl={} addrs={}", hxs("acct00900"), FEE + amount * funded, hxs(template), hx_list(&list)),
+        &format!("inst sender={} funds=0:{} amount={amount} limit={limit} tpl={} addrs={}", hxs(INST_SENDER), FEE + amount * funded, hxs(template), hx_list(&list)),
     );
-    let me = sut.w.as_ref().unwrap().airdrop.clone().expect("std world instantiates").to_string();
+    let me = sut.w.as_ref().unwrap().airdrop.clone().expect("std world instantiates");
     ses.step(sut, &format!("cwl_admins sender={} admins={}", hxs(CREATOR), hx_list(&[CREATOR.to_string(), me.clone()])));
     (Scn { keys, template: template.to_string(), limit, live: true }, me)
+}
+fn signed(k: &Key, tpl: &str, w: &str) -> String {
+    hex::encode(sign(k, &tpl.replace("{wallet}", w), false))
 }
 
 fn main() {
@@ -1108,8 +1551,71 @@ fn main() {
     }
     let mut rng = ses.rng.fork();
 
+    // ------------------------------------------------------------------ 0. what the code is, found at run time
+    // amount bounds (private constants): bisection on the real instantiate
+    let (min, max) = discover_amount_bounds();
+    let amt = 66_000_000u128.max(min).min(max.unwrap_or(u128::MAX));
+    // message surface: every execute variant in the crates' JSON schemas that this file has no named op for is sent as raw
+    // JSON (arguments filled from the schema) under the `exec_raw` monitors
+    let who = "acct00001";
+    let cx = Ctx {
+        min,
+        max,
+        amt,
+        unknown_airdrop: unknown_variant_msgs(&airdrop_exec_schema(), &KNOWN_AIRDROP_EXEC, who, PROBE),
+        unknown_immutable: unknown_variant_msgs(&immutable_exec_schema(), &KNOWN_IMMUTABLE_EXEC, who, PROBE),
+    };
+    ses.note(format!("airdrop_amount bounds found on the real instantiate: min {min}, max {:?}", max));
+    for (t, v, known) in [("airdrop", schema_variants(&airdrop_exec_schema()), &KNOWN_AIRDROP_EXEC[..]), ("immutable", schema_variants(&immutable_exec_schema()), &KNOWN_IMMUTABLE_EXEC[..])] {
+        let names: Vec<String> = v.iter().map(|x| x.0.clone()).collect();
+        ses.note(format!("execute variants of the {t} contract (schema): {:?}", names));
+        for n in &names {
+            ses.mark(format!("surface:{t}:{}:{n}", if known.contains(&n.as_str()) { "known" } else { "unknown" }));
+        }
+        for k in known {
+            if !names.iter().any(|n| n == k) {
+                ses.note(format!("execute variant `{k}` of the {t} contract is no longer in the schema"));
+            }
+        }
+    }
+    // coverage floor: without these the run would be vacuous
+    for c in [
+        "surface:airdrop:known:claim_airdrop",
+        "verify:valid:ok1",
+        "claim:valid:ok:L<open$",
+        "claim:replay-other-wallet:err",
+        "claim:other-key:err",
+        "claim:v-sweep:exactly-the-two-encodings-of-the-right-parity",
+        "claim:vother:err",
+        "limit2:round1:ok",
+        "limit2:round2:err",
+        "inst:amount:min-1:err",
+        "inst:amount:min:ok",
+        "inst:tpl:1000:ok",
+        "inst:tpl:1001:err",
+        "exec_raw:airdrop:exec:unchanged",
+        "exec_raw:immutable:exec:unchanged",
+        "exec_raw:airdrop:migrate:unchanged",
+        "swap:claim-lands-on-new-whitelist",
+        "swap:back:claim-ok",
+        "time:wl-start:claim-ok",
+        "time:wl-end:claim-ok",
+        "admins-claim:ok",
+        "case-variants:per-address-over-limit",
+        "big-list:first:ok",
+        "big-list:last:ok",
+        "scenario:short-and-full",
+        "orders:all-sequences",
+    ] {
+        ses.require(c);
+    }
+    if max.is_some() {
+        ses.require("inst:amount:max:ok");
+        ses.require("inst:amount:max+1:err");
+    }
+
     // ------------------------------------------------------------------ 1. function level
-    ses.begin_case(&mut sut, &format!("case functions wl=0 wlimit=0 admin={}", hxs(CREATOR)));
+    ses.begin_case(&mut sut, &header("functions", 0, false, 0, 0));
     // str::replace / contains on adversarial templates × adversarial wallets
     let mut tpls: Vec<String> = TEMPLATES.iter().map(|s| s.to_string()).collect();
     tpls.extend(["", "{", "}", "{wallet", "wallet}", "{wallet}{", "{{{wallet}}}", "{wallet}{wallet}{wallet}", "{walle{wallet}t}", "é{wallet}é", "{wallet}\u{1F600}{wallet}"].iter().map(|s| s.to_string()));
@@ -1256,48 +1762,58 @@ fn main() {
 
     // ------------------------------------------------------------------ 2. every recovery byte through the contract
     {
-        let (sc, _me) = std_world(&mut ses, &mut sut, &mut rng, "v-sweep", "My Stargaze address is {wallet} and I want a Winter Pal.", 300, 1, 4, 40);
+        let (sc, _me) = std_world(&mut ses, &mut sut, &mut rng, &cx, "v-sweep", "My Stargaze address is {wallet} and I want a Winter Pal.", 300, 1, 4, 40);
         let k = &sc.keys[0];
         let w = "acct00001";
         let good = sign(k, &sc.template.replace("{wallet}", w), false);
+        let mut accepted = vec![];
         for v in 0..=255u8 {
             let mut s = good.clone();
             s[64] = v;
             let o = ses.step(&mut sut, &claim_line(w, &k.eth, &hex::encode(&s)));
-            ses.mark(format!("claim:v{}:{}", if recid_of(v).is_some() { v.to_string() } else { "other".into() }, o.split(' ').next().unwrap()));
+            if o.starts_with("ok") {
+                accepted.push(v);
+            }
+            ses.mark(format!("claim:v{}:{}", if recid_of(v).is_some() { v.to_string() } else { "other".into() }, first_word(&o)));
+        }
+        // exactly the two encodings of the right parity: v and v − 27
+        if accepted == vec![good[64] - 27, good[64]] {
+            ses.mark("claim:v-sweep:exactly-the-two-encodings-of-the-right-parity");
         }
         ses.end_case();
     }
     // ------------------------------------------------------------------ 3. claim orders up to and past the limit, several keys
     for limit in 0..=3u64 {
-        let (sc, _me) = std_world(&mut ses, &mut sut, &mut rng, &format!("limit-{limit}"), "{wallet} claims", limit, 3, 3 * limit as u128 + 1, 40);
+        let (sc, _me) = std_world(&mut ses, &mut sut, &mut rng, &cx, &format!("limit-{limit}"), "{wallet} claims", limit, 3, 3 * limit as u128 + 1, 40);
         for round in 0..limit + 2 {
             for (ki, k) in sc.keys.iter().enumerate() {
                 let w = WALLETS[(round as usize * 3 + ki) % 5];
                 let o = ses.step(&mut sut, &claim_line(w, &k.eth, &hex::encode(sign(k, &sc.template.replace("{wallet}", w), round % 2 == 1))));
-                ses.mark(format!("limit{limit}:round{round}:{}", o.split(' ').next().unwrap()));
+                ses.mark(format!("limit{limit}:round{round}:{}", first_word(&o)));
             }
         }
         ses.end_case();
     }
     // ------------------------------------------------------------------ 4. funding one unit short / collection whitelist full / same wallet twice
     {
-        let (sc, me) = std_world(&mut ses, &mut sut, &mut rng, "short-and-full", "{wallet}", 5, 2, 2, 2);
-        let s = |k: &Key, w: &str, sc: &Scn| hex::encode(sign(k, &sc.template.replace("{wallet}", w), false));
+        let (sc, me) = std_world(&mut ses, &mut sut, &mut rng, &cx, "short-and-full", "{wallet}", 5, 2, 2, 2);
+        let s = |k: &Key, w: &str, sc: &Scn| signed(k, &sc.template, w);
         let k = &sc.keys[0];
-        ses.step(&mut sut, &claim_line("acct00001", &k.eth, &s(k, "acct00001", &sc)));
-        ses.step(&mut sut, &claim_line("acct00001", &k.eth, &s(k, "acct00001", &sc))); // same wallet again: already a member
-        ses.step(&mut sut, &claim_line("acct00002", &k.eth, &s(k, "acct00002", &sc))); // out of money
-        ses.step(&mut sut, &format!("fund to={} amt={}", hxs(&me), 66_000_000 - 1));
-        ses.step(&mut sut, &claim_line("acct00002", &k.eth, &s(k, "acct00002", &sc))); // one unit short
+        let mut outs = vec![];
+        outs.push(ses.step(&mut sut, &claim_line("acct00001", &k.eth, &s(k, "acct00001", &sc))));
+        outs.push(ses.step(&mut sut, &claim_line("acct00001", &k.eth, &s(k, "acct00001", &sc)))); // same wallet again: already a member
+        outs.push(ses.step(&mut sut, &claim_line("acct00002", &k.eth, &s(k, "acct00002", &sc)))); // out of money
+        ses.step(&mut sut, &format!("fund to={} amt={}", hxs(&me), cx.amt - 1));
+        outs.push(ses.step(&mut sut, &claim_line("acct00002", &k.eth, &s(k, "acct00002", &sc)))); // one unit short
         ses.step(&mut sut, &format!("fund to={} amt=1", hxs(&me)));
-        ses.step(&mut sut, &claim_line("acct00002", &k.eth, &s(k, "acct00002", &sc))); // exactly enough
-        ses.step(&mut sut, &format!("fund to={} amt={}", hxs(&me), 66_000_000u128 * 3));
-        ses.step(&mut sut, &claim_line("acct00003", &k.eth, &s(k, "acct00003", &sc))); // whitelist full (2 members)
-        ses.step(&mut sut, &claim_line("acct00001", &k.eth, &s(k, "acct00001", &sc))); // full: even an existing member fails
+        outs.push(ses.step(&mut sut, &claim_line("acct00002", &k.eth, &s(k, "acct00002", &sc)))); // exactly enough
+        ses.step(&mut sut, &format!("fund to={} amt={}", hxs(&me), cx.amt * 3));
+        outs.push(ses.step(&mut sut, &claim_line("acct00003", &k.eth, &s(k, "acct00003", &sc)))); // whitelist full (2 members)
+        outs.push(ses.step(&mut sut, &claim_line("acct00001", &k.eth, &s(k, "acct00001", &sc)))); // full: even an existing member fails
         ses.step(&mut sut, &format!("cwl_rm sender={} who={}", hxs(CREATOR), hxs("acct00001")));
-        ses.step(&mut sut, &claim_line("acct00003", &k.eth, &s(k, "acct00003", &sc)));
-        ses.mark("scenario:short-and-full");
+        outs.push(ses.step(&mut sut, &claim_line("acct00003", &k.eth, &s(k, "acct00003", &sc))));
+        let pat: String = outs.iter().map(|o| if o.starts_with("ok") { '+' } else { '-' }).collect();
+        ses.mark(format!("scenario:short-and-full:{pat}"));
         ses.end_case();
     }
 
@@ -1307,7 +1823,7 @@ fn main() {
         let keys: Vec<Key> = (0..2).map(|_| new_key(&mut rng, 5)).collect();
         let tpl = "I am {wallet}";
         let (w0, w1) = ("acct00001", "acct00002");
-        let sg = |k: &Key, w: &str| hex::encode(sign(k, &tpl.replace("{wallet}", w), false));
+        let sg = |k: &Key, w: &str| signed(k, tpl, w);
         let alphabet: Vec<String> = vec![
             claim_line(w0, &keys[0].eth, &sg(&keys[0], w0)),
             claim_line(w1, &keys[0].eth, &sg(&keys[0], w1)),
@@ -1318,14 +1834,14 @@ fn main() {
         ];
         let n = alphabet.len() as u64;
         for code in 0..n.pow(len) {
-            let (_sc, me) = std_world_with(&mut ses, &mut sut, keys.clone(), &format!("orders-{code}"), tpl, 1, 2, 40);
+            let (_sc, me) = std_world_with(&mut ses, &mut sut, &cx, keys.clone(), &format!("orders-{code}"), tpl, 1, 2, 40, 1);
             let mut c = code;
             let mut pattern = String::new();
             for _ in 0..len {
                 let i = (c % n) as usize;
                 let l = &alphabet[i];
                 c /= n;
-                let o = if l == "FUND" { ses.step(&mut sut, &format!("fund to={} amt=66000000", hxs(&me))) } else { ses.step(&mut sut, l) };
+                let o = if l == "FUND" { ses.step(&mut sut, &format!("fund to={} amt={}", hxs(&me), cx.amt)) } else { ses.step(&mut sut, l) };
                 pattern.push_str(&format!("{i}{}", if o.starts_with("ok") { '+' } else { '-' }));
             }
             let outcomes: String = pattern.chars().filter(|c| *c == '+' || *c == '-').collect();
@@ -1336,13 +1852,213 @@ fn main() {
         ses.note(format!("every sequence of length {len} over 5 claims (2 keys × 2 wallets, one replay, one wrong key) + funding, limit 1, funded for 2 claims"));
     }
 
-    // ------------------------------------------------------------------ 6. random worlds
-    let n_cases = ses.scale(500, 8_000);
+    // ------------------------------------------------------------------ 6. instantiate at the exact bounds (amount ±1 found on the real code, template 1000 / 1001 bytes)
+    {
+        let k = new_key(&mut rng, 5);
+        let mut cases: Vec<(String, String, u128)> = vec![
+            ("amount:min-1".into(), "{wallet}".into(), cx.min.saturating_sub(1)),
+            ("amount:min".into(), "{wallet}".into(), cx.min),
+            ("tpl:999".into(), format!("{}{}", "z".repeat(991), "{wallet}"), cx.amt),
+            ("tpl:1000".into(), format!("{}{}", "z".repeat(992), "{wallet}"), cx.amt),
+            ("tpl:1001".into(), format!("{}{}", "z".repeat(993), "{wallet}"), cx.amt),
+        ];
+        if let Some(m) = cx.max {
+            cases.push(("amount:max".into(), "{wallet}".into(), m));
+            cases.push(("amount:max+1".into(), "{wallet}".into(), m + 1));
+        }
+        for (label, tpl, amount) in cases {
+            if label == "amount:min-1" && cx.min == 0 {
+                continue;
+            }
+            ses.begin_case(&mut sut, &header(&format!("bounds-{label}"), 1, true, 40, 40));
+            ses.step(&mut sut, &format!("fund to={} amt={}", hxs(INST_SENDER), FEE + amount));
+            let o = ses.step(
+                &mut sut,
+                &format!("inst sender={} funds=0:{} amount={amount} limit=1 tpl={} addrs={}", hxs(INST_SENDER), FEE + amount, hxs(&tpl), hx_list(&[k.eth.clone()])),
+            );
+            ses.mark(format!("inst:{label}:{}", first_word(&o)));
+            if o.starts_with("ok") {
+                // the accepted extreme is really what a claim pays
+                let me = sut.w.as_ref().unwrap().airdrop.clone().unwrap();
+                ses.step(&mut sut, &format!("cwl_admins sender={} admins={}", hxs(CREATOR), hx_list(&[CREATOR.to_string(), me])));
+                let o2 = ses.step(&mut sut, &claim_line("acct00001", &k.eth, &signed(&k, &tpl, "acct00001")));
+                ses.mark(format!("inst:{label}:claim:{}", first_word(&o2)));
+            }
+            ses.end_case();
+        }
+    }
+
+    // ------------------------------------------------------------------ 7. anything but ClaimAirdrop: hypothetical + schema-enumerated messages, sudo, migrate
+    {
+        let (sc, me) = std_world(&mut ses, &mut sut, &mut rng, &cx, "foreign-messages", "{wallet}", 2, 2, 5, 40);
+        let k = sc.keys[0].clone();
+        let o = ses.step(&mut sut, &claim_line("acct00001", &k.eth, &signed(&k, &sc.template, "acct00001")));
+        assert!(o.starts_with("ok"), "a valid claim in the standard world succeeds: {o}");
+        for target in ["airdrop", "immutable"] {
+            let unknown = if target == "airdrop" { &cx.unknown_airdrop } else { &cx.unknown_immutable };
+            for sender in ["acct00001", INST_SENDER, CREATOR, me.as_str()] {
+                let mut msgs = hypothetical_msgs(target, sender, &k.eth);
+                let (schema, known) = if target == "airdrop" { (airdrop_exec_schema(), &KNOWN_AIRDROP_EXEC[..]) } else { (immutable_exec_schema(), &KNOWN_IMMUTABLE_EXEC[..]) };
+                msgs.extend(unknown_variant_msgs(&schema, known, sender, PROBE).into_iter().map(|x| x.1));
+                for (i, m) in msgs.iter().enumerate() {
+                    for kind in ["exec", "sudo", "migrate"] {
+                        if kind != "exec" && (i > 2 || sender == "acct00001") {
+                            continue;
+                        }
+                        let o = ses.step(&mut sut, &raw_line(kind, target, sender, m));
+                        let res = o.split(" ## ").nth(1).unwrap_or("");
+                        ses.mark(format!("exec_raw:{target}:{kind}:unchanged:{res}"));
+                    }
+                }
+            }
+            for (n, _) in unknown {
+                ses.mark(format!("exec_raw:{target}:sent-unknown:{n}"));
+            }
+        }
+        // the world still works exactly as before
+        let o = ses.step(&mut sut, &claim_line("acct00002", &k.eth, &signed(&k, &sc.template, "acct00002")));
+        ses.mark(format!("exec_raw:then-claim:{}", first_word(&o)));
+        let o = ses.step(&mut sut, &claim_line("acct00003", &k.eth, &signed(&k, &sc.template, "acct00003")));
+        ses.mark(format!("exec_raw:then-claim-past-limit:{}", first_word(&o)));
+        ses.step(&mut sut, "q_imm");
+        ses.end_case();
+    }
+
+    // ------------------------------------------------------------------ 8. the minter admin swaps the collection whitelist between two claims
+    {
+        let keys: Vec<Key> = (0..2).map(|_| new_key(&mut rng, 5)).collect();
+        let (sc, me) = std_world_with(&mut ses, &mut sut, &cx, keys, "swap-whitelist", "{wallet}", 4, 8, 40, 2);
+        let k = sc.keys[0].clone();
+        let cl = |w: &str| claim_line(w, &k.eth, &signed(&k, &sc.template, w));
+        let o = ses.step(&mut sut, &cl("acct00001"));
+        ses.mark(format!("swap:before:claim-{}", first_word(&o)));
+        ses.step(&mut sut, "set_wl id=2");
+        let o = ses.step(&mut sut, &cl("acct00002")); // the airdrop contract is not an admin of whitelist 2 yet
+        ses.mark(format!("swap:not-admin-of-new:claim-{}", first_word(&o)));
+        ses.step(&mut sut, &format!("cwl_admins sender={} admins={}", hxs(CREATOR), hx_list(&[CREATOR.to_string(), me.clone()])));
+        let o = ses.step(&mut sut, &cl("acct00002"));
+        let w = sut.w.as_ref().unwrap();
+        if o.starts_with("ok") && w.members_of(&w.wls[1]).contains("acct00002") && !w.members_of(&w.wls[0]).contains("acct00002") {
+            ses.mark("swap:claim-lands-on-new-whitelist");
+        }
+        let o = ses.step(&mut sut, &cl("acct00001")); // already on whitelist 1, now joins whitelist 2 as well
+        ses.mark(format!("swap:old-member:claim-{}", first_word(&o)));
+        ses.step(&mut sut, "set_wl id=1");
+        let o = ses.step(&mut sut, &cl("acct00003"));
+        ses.mark(format!("swap:back:claim-{}", first_word(&o)));
+        let o = ses.step(&mut sut, &cl("acct00003")); // limit 4 reached by now: 5th claim of this key
+        ses.mark(format!("swap:past-limit:claim-{}", first_word(&o)));
+        ses.step(&mut sut, "set_wl id=3"); // no such whitelist
+        ses.end_case();
+    }
+
+    // ------------------------------------------------------------------ 9. time passes: the collection whitelist starts and ends between claims
+    {
+        let (sc, _me) = std_world_with(&mut ses, &mut sut, &cx, vec![new_key(&mut rng, 5)], "time", "{wallet}", 20, 20, 40, 2);
+        let k = sc.keys[0].clone();
+        let cl = |w: &str| claim_line(w, &k.eth, &signed(&k, &sc.template, w));
+        for (label, t) in [("wl-start-1", WL_START - 1), ("wl-start", WL_START), ("wl-start+1", WL_START + 1), ("wl-end-1", WL_END - 1), ("wl-end", WL_END), ("wl-end+1", WL_END + 1), ("minter-start", MINTER_START), ("minter-start+1", MINTER_START + 1)] {
+            ses.step(&mut sut, &format!("time t={t}"));
+            let w = WALLETS[(t % 5) as usize];
+            let o = ses.step(&mut sut, &cl(w));
+            ses.mark(format!("time:{label}:claim-{}", first_word(&o)));
+            let o = ses.step(&mut sut, &cl(w)); // same block, same wallet again
+            ses.mark(format!("time:{label}:same-block-repeat-{}", first_word(&o)));
+            let o = ses.step(&mut sut, &format!("cwl_rm sender={} who={}", hxs(CREATOR), hxs(w)));
+            ses.mark(format!("time:{label}:rm:{}", o.split(" ## ").nth(1).unwrap_or("").split(' ').next().unwrap_or("")));
+            let o = ses.step(&mut sut, "set_wl id=2");
+            ses.mark(format!("time:{label}:set_wl:{o}"));
+            ses.step(&mut sut, "set_wl id=1");
+        }
+        ses.end_case();
+    }
+
+    // ------------------------------------------------------------------ 10. the administrators claim; the contract as its own caller
+    {
+        let (sc, me) = std_world(&mut ses, &mut sut, &mut rng, &cx, "admins-claim", "I, {wallet}, claim", 10, 1, 6, 40);
+        let k = sc.keys[0].clone();
+        let mut all_ok = true;
+        for w in [CREATOR, "acct00010", INST_SENDER, me.as_str()] {
+            let o = ses.step(&mut sut, &claim_line(w, &k.eth, &signed(&k, &sc.template, w)));
+            all_ok &= o.starts_with("ok");
+        }
+        ses.mark(format!("admins-claim:{}", if all_ok { "ok" } else { "err" }));
+        ses.end_case();
+    }
+
+    // ------------------------------------------------------------------ 11. one address listed under two spellings (eligibility and counter are per string)
+    for limit in [1u64, 2] {
+        let k = new_key(&mut rng, 2);
+        let (lower, upper) = (k.eth.clone(), format!("0x{}", k.eth[2..].to_uppercase()));
+        let (sc, _me) = std_world_list(&mut ses, &mut sut, &cx, vec![k.clone()], vec![lower.clone(), upper.clone()], &format!("case-variants-{limit}"), "{wallet}", limit, 2 * limit as u128 + 2, 40, 1);
+        let mut n_ok = 0u64;
+        for round in 0..=limit {
+            for e in [&lower, &upper] {
+                let w = WALLETS[round as usize % 3];
+                let o = ses.step(&mut sut, &claim_line(w, e, &signed(&k, &sc.template, w)));
+                n_ok += o.starts_with("ok") as u64;
+            }
+        }
+        // mixed casing that is NOT listed
+        let mixed = format!("0x{}{}", k.eth[2..22].to_uppercase(), &k.eth[22..]);
+        if mixed != lower && mixed != upper {
+            let o = ses.step(&mut sut, &claim_line("acct00001", &mixed, &signed(&k, &sc.template, "acct00001")));
+            ses.mark(format!("case-variants:unlisted-spelling:{}", first_word(&o)));
+        }
+        if n_ok > limit {
+            ses.mark("case-variants:per-address-over-limit");
+        }
+        ses.mark(format!("case-variants:limit{limit}:ok{n_ok}"));
+        if limit == 1 {
+            if let Ok(p) = std::env::var("C16_DUMP_CASE_VARIANTS") {
+                // the same history with `strict=1` (literal per-address clause) as a replay file
+                let c = sut.log.clone();
+                let mut ops = vec![sut.header.replace("strict=0", "strict=1")];
+                ops.extend(c);
+                let v = json!({"property": "C16", "kind": "monitor", "key": "sg-eth-airdrop/claim/limit-exceeded-per-address-listed-under-two-spellings",
+                    "what": "one Ethereum key, listed as 0xab… and 0xAB…, limit 1: both spellings are paid (2 claims for one address)", "ops": ops,
+                    "how_to_replay": "./check C16 --replay corpus/C16/case-variant-double-claim.json"});
+                std::fs::write(p, serde_json::to_string_pretty(&v).unwrap()).ok();
+            }
+        }
+        ses.end_case();
+    }
+
+    // ------------------------------------------------------------------ 12. a list far beyond any page size
+    {
+        let keys: Vec<Key> = (0..3).map(|_| new_key(&mut rng, 5)).collect();
+        let mut list: Vec<String> = (0..130).map(|_| new_key(&mut rng, 5).eth).collect();
+        list.sort();
+        list.insert(0, keys[0].eth.clone());
+        list.insert(66, keys[1].eth.clone());
+        list.push(keys[2].eth.clone());
+        let (sc, _me) = std_world_list(&mut ses, &mut sut, &cx, keys.clone(), list.clone(), "big-list", "{wallet}", 1, 4, 200, 1);
+        ses.step(&mut sut, "q_imm");
+        for (pos, k) in [("first", &keys[0]), ("middle", &keys[1]), ("last", &keys[2])] {
+            let o = ses.step(&mut sut, &claim_line("acct00001", &k.eth, &signed(k, &sc.template, "acct00001")));
+            ses.mark(format!("big-list:{pos}:{}", first_word(&o)));
+            let o = ses.step(&mut sut, &claim_line("acct00002", &k.eth, &signed(k, &sc.template, "acct00002")));
+            ses.mark(format!("big-list:{pos}:again:{}", first_word(&o)));
+        }
+        // listed, but nobody has the key
+        ses.step(&mut sut, &claim_line("acct00001", &list[5], &signed(&keys[0], &sc.template, "acct00001")));
+        for e in [&list[1], &list[100], &list[131]] {
+            ses.step(&mut sut, &format!("q_elig eth={}", hxs(e)));
+        }
+        // 120 wallets on the collection whitelist through claims is C11's business; here: more claimants than a page
+        ses.end_case();
+    }
+
+    // ------------------------------------------------------------------ 13. random worlds
+    let n_cases = ses.scale(400, 7_000);
     for i in 0..n_cases {
         let n_ops = rng.range(10, 60);
-        run_world_case(&mut ses, &mut sut, &mut rng, i, n_ops);
+        run_world_case(&mut ses, &mut sut, &mut rng, &cx, i, n_ops);
     }
-    ses.note("signatures: real secp256k1 (k256) personal-sign signatures; witness = hand-written ecrecover / ECDSA verification on k256 group arithmetic + sha3, compared with deps.api through the model");
+    if let Ok(p) = std::env::var("C16_DUMP_CLASSES") {
+        std::fs::write(p, ses.classes.iter().cloned().collect::<Vec<_>>().join("\n")).ok();
+    }
+    ses.note("signatures: real secp256k1 (k256) personal-sign signatures; witness = hand-written ecrecover / ECDSA verification on k256 group arithmetic + sha3 (independent protocol code over the same curve library), compared with deps.api through the model");
     ses.note("mutation kinds per claim: valid (v=27/28, v=0/1, upper-case hex), replay for another wallet, another key, bit flip, wrong length, every v, non-hex, high-S (both parities), other message, other casing of the address, malformed listed address, no envelope");
     ses.finish(&mut sut);
 }
